@@ -187,11 +187,16 @@ func VerifHarness_C10_Exclude() {
 			want = append(want, v)
 		}
 	}
-	ok := err == nil && len(got) == len(want)
-	for i := 0; ok && i < len(got); i++ {
+	// (two obligations: the items of c that survive, in order; and nothing else)
+	ok := err == nil && len(got) >= len(want)
+	for i := 0; ok && i < len(want); i++ {
 		ok = got[i] != nil && verifSame(got[i], want[i])
 	}
-	verifrt.Assert(ok, "exclude-keeps-exactly-items-not-in-other")
+	verifrt.Assert(ok, "exclude-keeps-exactly-the-items-of-c-not-in-other-in-order")
+	verifrt.Assert(err != nil || len(got) <= len(want), "exclude-adds-nothing")
+	for _, g := range got {
+		verifrt.Assert(g != nil, "exclude-never-yields-a-null-item")
+	}
 	verifrt.Reach("end")
 }
 
